@@ -25,7 +25,7 @@ func init() {
 			StatesMean:  "(program, trace prefix) pairs; transitions = real Next calls",
 			Assumptions: []string{"small-scope hypothesis", "a fault in an always-evaluated position must yield an error at that step; in a conditionally evaluated position only 'no panic' is demanded", "dice(x) must fail for x<1, NaN or |x|>=2^63; random_range(a,b) for a>b, NaN or |bound|>=2^63; other argument values need only not panic"},
 		},
-		QuickBudget: 70 * time.Second, ThoroughBudget: 14 * time.Minute, CrashIsViolation: true,
+		QuickBudget: 180 * time.Second, ThoroughBudget: 14 * time.Minute, CrashIsViolation: true,
 		Run: runC06,
 	})
 }
